@@ -168,7 +168,15 @@ static void run_off(Out& out, Rng& g, const DGroup& G, double d, int join, doubl
                     const std::string& scen, const DGroup* boundary = NULL) {
     const DGroup& B = (boundary && !boundary->empty()) ? *boundary : G;
     bool err = false;
+    {
+        Frame f0;
+        f0.S = S;
+        frame_add(f0, G);
+        guard_begin(out, "off", "S " + hex_u64((uint64_t)S) + " K " + std::to_string(f0.K) + " G " + ser_group(G, f0) + " PARAM " + hex_dbl(d) + " " +
+                                    std::to_string(join) + " " + hex_dbl(tol) + " " + (use_union ? "1" : "0"), "c13-offset-crash");
+    }
     DGroup R = call_offset(G, d, join, tol, S, use_union, err);
+    guard_end();
     Frame f;
     f.S = S;
     frame_add(f, G);
@@ -367,7 +375,7 @@ static bool parse_i128s(const char*& s, i128& v) {
     return true;
 }
 static void run_case(Out& out, Rng& g, const std::string& kind, const std::string& payload) {
-    if (kind != "off") return;
+    if (kind != "off" && kind != "off-crash") return;
     const char* s = payload.c_str();
     i128 S;
     if (strncmp(s, "S ", 2) != 0) return;
